@@ -541,3 +541,215 @@ func TestGowpReplay(t *testing.T) {
 `, scenario)
 	return src, true
 }
+
+// --- maxWidthDistributor: a width exchange left half-way on the error path (C15) ------------
+
+func init() {
+	replayHarnesses = append(replayHarnesses,
+		replayHarness{match: prefixMatch("maxWidthDistributor/ensures:answered"), pkgDir: ".", render: renderHalfExchange,
+			class: func(P *Program, ob *Obligation) string { return "dropped-after-collecting" }})
+}
+
+// History of the class: bar X has a synchronised decorator, bar Y a slow plain decorator
+// followed by a synchronised one, bar Z (added last) has a filler that fails. Z's frame
+// closes the drop channel while the column's distributor holds X's width and waits for Y's;
+// it returns, X stays blocked in its width exchange. Oracle: Wait returns.
+func renderHalfExchange(P *Program, ob *Obligation) (string, bool) {
+	return `package mpb
+
+import (
+	"errors"
+	"io"
+	"testing"
+	"time"
+
+	"github.com/vbauerster/mpb/v8/decor"
+)
+
+func TestGowpReplay(t *testing.T) {
+	reproduced := 0
+	for attempt := 0; attempt < 5 && reproduced == 0; attempt++ {
+		p := New(WithOutput(io.Discard), WithAutoRefresh(), WithRefreshRate(20*time.Millisecond))
+		slow := decor.Any(func(decor.Statistics) string { time.Sleep(150 * time.Millisecond); return "slow" })
+		p.AddBar(100, PrependDecorators(decor.Name("x", decor.WCSyncWidth)))
+		p.AddBar(100, PrependDecorators(slow, decor.Name("yy", decor.WCSyncWidth)))
+		p.Add(100, BarFillerFunc(func(io.Writer, decor.Statistics) error { return errors.New("filler failed") }))
+		done := make(chan struct{})
+		go func() { p.Wait(); close(done) }()
+		select {
+		case <-done:
+		case <-time.After(3 * time.Second):
+			reproduced++
+		}
+	}
+	if reproduced > 0 {
+		t.Fatalf("REPRODUCED: after a render error Wait did not return within 3s (a bar is left half-way through a width exchange)")
+	}
+	t.Logf("5 attempts, Wait returned every time")
+}
+`, true
+}
+
+// --- (*pState).render: a frame as tall as the terminal (C04) ---------------------------------
+
+func init() {
+	replayHarnesses = append(replayHarnesses,
+		replayHarness{match: prefixMatch("(*pState).render/ensures:fits"), pkgDir: ".", render: renderPtyFits,
+			class: func(P *Program, ob *Obligation) string { return "frame-fills-terminal" }})
+}
+
+// The container runs on the slave side of a pseudo terminal of H rows with H bars; the
+// master's bytes are interpreted by a line-feed / cursor-up interpreter. Oracle: no line is
+// ever scrolled off the screen.
+func renderPtyFits(P *Program, ob *Obligation) (string, bool) {
+	return `package mpb
+
+import (
+	"os"
+	"strconv"
+	"sync"
+	"testing"
+	"time"
+	"unsafe"
+
+	"golang.org/x/sys/unix"
+)
+
+func TestGowpReplay(t *testing.T) {
+	const H = 6
+	m, err := os.OpenFile("/dev/ptmx", os.O_RDWR|unix.O_NOCTTY, 0)
+	if err != nil {
+		t.Skipf("no pty: %v", err)
+	}
+	defer m.Close()
+	var unlock int32
+	if _, _, e := unix.Syscall(unix.SYS_IOCTL, m.Fd(), unix.TIOCSPTLCK, uintptr(unsafe.Pointer(&unlock))); e != 0 {
+		t.Skipf("unlockpt: %v", e)
+	}
+	n, err := unix.IoctlGetInt(int(m.Fd()), unix.TIOCGPTN)
+	if err != nil {
+		t.Skipf("ptsname: %v", err)
+	}
+	s, err := os.OpenFile("/dev/pts/"+strconv.Itoa(n), os.O_RDWR|unix.O_NOCTTY, 0)
+	if err != nil {
+		t.Skipf("open slave: %v", err)
+	}
+	if err := unix.IoctlSetWinsize(int(m.Fd()), unix.TIOCSWINSZ, &unix.Winsize{Row: H, Col: 80}); err != nil {
+		t.Skipf("winsize: %v", err)
+	}
+	var mu sync.Mutex
+	var out []byte
+	go func() {
+		buf := make([]byte, 4096)
+		for {
+			n, err := m.Read(buf)
+			mu.Lock()
+			out = append(out, buf[:n]...)
+			mu.Unlock()
+			if err != nil {
+				return
+			}
+		}
+	}()
+	p := New(WithOutput(s), WithRefreshRate(20*time.Millisecond))
+	bars := make([]*Bar, H)
+	for i := range bars {
+		bars[i] = p.AddBar(100)
+	}
+	time.Sleep(200 * time.Millisecond)
+	for _, b := range bars {
+		b.IncrBy(100)
+	}
+	p.Wait()
+	s.Close()
+	time.Sleep(100 * time.Millisecond)
+	mu.Lock()
+	data := append([]byte{}, out...)
+	mu.Unlock()
+	row, scrolled := 0, 0
+	for i := 0; i < len(data); i++ {
+		switch c := data[i]; {
+		case c == '\n':
+			row++
+			if row == H {
+				scrolled++
+				row = H - 1
+			}
+		case c == 0x1b && i+1 < len(data) && data[i+1] == '[':
+			j := i + 2
+			k := 0
+			for j < len(data) && data[j] >= '0' && data[j] <= '9' {
+				k = k*10 + int(data[j]-'0')
+				j++
+			}
+			if j < len(data) && data[j] == 'A' {
+				row -= k
+				if row < 0 {
+					row = 0
+				}
+			}
+			i = j
+		}
+	}
+	t.Logf("%d bytes, %d lines scrolled off a %d-row terminal showing %d bars", len(data), scrolled, H, H)
+	if scrolled > 0 {
+		t.Fatalf("REPRODUCED: %d bar rows were pushed into the scrollback (%d bars on a %d-row terminal)", scrolled, H, H)
+	}
+}
+`, true
+}
+
+// --- (*pState).flush: a popped bar whose rows were clipped (C18) ----------------------------
+
+func init() {
+	replayHarnesses = append(replayHarnesses,
+		replayHarness{match: prefixMatch("(*pState).flush/iter#1:shown"), pkgDir: ".", render: renderClippedPop,
+			class: func(P *Program, ob *Obligation) string { return "popped-while-clipped" }})
+}
+
+// More bars than rows (not a terminal: height == width), pop-completed mode; the top bar,
+// whose rows are clipped, completes. Oracle: its finished state is written at least once.
+func renderClippedPop(P *Program, ob *Obligation) (string, bool) {
+	return `package mpb
+
+import (
+	"bytes"
+	"fmt"
+	"strings"
+	"sync"
+	"testing"
+	"time"
+)
+
+type lockedBuf struct {
+	mu sync.Mutex
+	b  bytes.Buffer
+}
+
+func (l *lockedBuf) Write(p []byte) (int, error) { l.mu.Lock(); defer l.mu.Unlock(); return l.b.Write(p) }
+func (l *lockedBuf) String() string               { l.mu.Lock(); defer l.mu.Unlock(); return l.b.String() }
+
+func TestGowpReplay(t *testing.T) {
+	var out lockedBuf
+	const width, n = 30, 34 // not a terminal: height == width == 30 rows, 34 bars
+	p := New(WithOutput(&out), WithWidth(width), WithAutoRefresh(), WithRefreshRate(20*time.Millisecond), PopCompletedMode())
+	bars := make([]*Bar, n)
+	for i := range bars {
+		bars[i] = p.AddBar(1, BarFillerOnComplete(fmt.Sprintf("done%02d", i)))
+	}
+	time.Sleep(100 * time.Millisecond)
+	bars[0].Increment() // the top bar (clipped: more bars than rows) finishes
+	time.Sleep(200 * time.Millisecond)
+	for _, b := range bars[1:] {
+		b.Abort(false)
+	}
+	p.Wait()
+	s := out.String()
+	shown := strings.Count(s, fmt.Sprintf("done%02d", 0))
+	t.Logf("finished state of the popped bar written %d times", shown)
+	if shown == 0 {
+		t.Fatalf("REPRODUCED: the bar that completed was popped without its finished state ever being written")
+	}
+}
+`, true
+}
